@@ -511,11 +511,11 @@ pub fn run(args: &[String]) -> i32 {
         merge(&mut rep, "same_identifier_twice", accs, &stats, json!({"kinds": H_KINDS, "placements": H_PLACES, "serde_rename_on": H_RENAMES, "languages": 6}));
     }
     let amb_k = if rep.thorough() { 3 } else { 2 };
-    super::common::ambient_family(&mut rep, "ambient_variations_items", amb_k + 1, |ch| { gen_items(ch, 2); }, |ch, acc| {
+    super::common::ambient_family(&mut rep, "ambient_variations_items", amb_k, |ch| { gen_items(ch, 2); }, |ch, acc| {
         let c = gen_items(ch, 2);
         check_items(&c, &ch.choices(), acc);
     });
-    super::common::ambient_family(&mut rep, "ambient_variations_members", amb_k + 1, |ch| { gen_members(ch); }, |ch, acc| {
+    super::common::ambient_family(&mut rep, "ambient_variations_members", amb_k, |ch| { gen_members(ch); }, |ch, acc| {
         let c = gen_members(ch);
         check_members(&c, &ch.choices(), acc);
     });
